@@ -218,6 +218,7 @@ func gmRun(c *gmCase, req string) (reply string, viols []run.Violation) {
 							// tracked: the file is created by ClaimUpload, which must fail; until then the
 							// documents of the second upload are stored next to the file
 							f.extra = true
+						case f.uncertain:
 						case f.complete || f.uploaded:
 							add("a second upload with the id of an existing file was closed successfully", "multi:collision-accepted", fmt.Sprintf("file %d", h.fid))
 							f.uncertain = true
@@ -242,6 +243,13 @@ func gmRun(c *gmCase, req string) (reply string, viols []run.Violation) {
 						f.hasPend, f.pending = false, nil
 					}
 					h.state = "aborted"
+				}
+				if c.tracked && f.uploaded && !f.uncertain {
+					// the marker of the finished, unclaimed upload must survive the Abort of any other stream
+					if n, merr := b.GetMarkersCollection(nil).CountDocuments(nil, bson.M{"files_id": ids[h.fid]}); merr == nil && n == 0 {
+						add("Abort of another stream deleted the marker of a finished tracked upload (it cannot be claimed any more)", "gridfs:foreign-marker-deleted", fmt.Sprintf("file %d", h.fid))
+						f.uncertain = true
+					}
 				}
 			case "suspend":
 				n, err := h.us.Suspend()
@@ -286,8 +294,9 @@ func gmRun(c *gmCase, req string) (reply string, viols []run.Violation) {
 			out(`["U",%s]`, gfsErrClass(err))
 			if err == nil {
 				switch {
+				case f.uncertain:
 				case collide && f.complete && c.tracked:
-					f.extra = true
+					f.extra, f.collided = true, true
 				case collide:
 					add("a second upload with the id of an existing file succeeded", "multi:collision-accepted", fmt.Sprintf("file %d", o.fid))
 					f.uncertain = true
@@ -310,7 +319,7 @@ func gmRun(c *gmCase, req string) (reply string, viols []run.Violation) {
 			out(`["k",%s]`, gfsErrClass(err))
 			f := &files[o.fid]
 			if err == nil {
-				if !f.uploaded {
+				if !f.uploaded && !f.uncertain {
 					w := "multi:claim-unfinished"
 					if f.complete {
 						w = "multi:collision-accepted"
@@ -480,7 +489,7 @@ func gmRun(c *gmCase, req string) (reply string, viols []run.Violation) {
 				} else if file.Length != len(f.content) || file.ChunkSize != f.chunk {
 					add("file record length/chunkSize wrong", damaged("multi:file-record"), fmt.Sprintf("file %d: got %d/%d want %d/%d", fid, file.Length, file.ChunkSize, len(f.content), f.chunk))
 				}
-				if hasMarker && !f.collided {
+				if hasMarker && !f.collided && !f.extra {
 					add("marker left after a claimed upload", "multi:marker-left", markerJ)
 				}
 			} else if !hasMarker {
@@ -787,6 +796,9 @@ func gmGenCollision(r *gen.R) *gmCase {
 	L := gmLen(r, ch)
 	if r.P(85) && L == 0 {
 		L = 1 + r.N(3*ch)
+	}
+	if r.P(12) {
+		L = 0 // no chunks: the colliding upload fails only when the file document is created
 	}
 	if L == 0 {
 		c.tags = append(c.tags, "victim:empty")
